@@ -28,10 +28,10 @@ import (
 	"strings"
 	"sync"
 	"time"
+	"verifharness/minex"
 
 	"go.sia.tech/core/gateway"
 	"go.sia.tech/core/types"
-	"go.sia.tech/coreutils"
 	"go.sia.tech/coreutils/chain"
 	"go.sia.tech/coreutils/syncer"
 	"verifharness/netx"
@@ -449,7 +449,7 @@ func runSpec(s spec, ip string) *vh.Case {
 			if h >= s.allow {
 				f.CM.AddV2PoolTransactions(f.CM.Tip(), []types.V2Transaction{{ArbitraryData: []byte(fmt.Sprintf("pool v2 %d", k))}})
 			}
-			b, ok := coreutils.MineBlock(f.CM, types.Address{0x41, byte(k)}, 20*time.Second)
+			b, ok := minex.MineBlock(f.CM, types.Address{0x41, byte(k)})
 			if !ok {
 				c.Oracle("harness-late-block", "could not mine the pool block")
 				return c
